@@ -28,9 +28,28 @@ S = 1_000_000_000
 NODE = "src/core/Node.cpp"
 
 
+HARNESS_NOTES: list = []
+
+
 def harness():
-    return build_harness("admission_h", "harness/admission_h.cpp", [s for s in ALL_CORE_SOURCES if s != NODE],
-                         includes_repo_cpp=True, vclock=True, libs=("-lcurl", "-lpthread"))
+    """admission_h reaches three anonymous-namespace validators of Node.cpp by name when they exist
+    (-DVERIF_INTERNALS=1, Node.cpp #included); if they are renamed or gone it is rebuilt without them
+    (-DVERIF_INTERNALS=0, Node.cpp linked normally) and measures the same facts through an oracle Node /
+    the property's own statement. No op is internal-only, so no case is dropped."""
+    def build(defines):
+        internals = "-DVERIF_INTERNALS=1" in defines
+        sources = [s for s in ALL_CORE_SOURCES if s != NODE] if internals else list(ALL_CORE_SOURCES)
+        return build_harness("admission_h", "harness/admission_h.cpp", sources, includes_repo_cpp=True, vclock=True,
+                             libs=("-lcurl", "-lpthread"), defines=defines)
+    del HARNESS_NOTES[:]
+    exe, _internals = build_harness_with_fallback(build, HARNESS_NOTES)
+    return exe
+
+
+def post(ctx, results):
+    for n in HARNESS_NOTES:
+        if n not in ctx.notes:
+            ctx.notes.append(n + " -- validity facts (handshake PoW, threshold, expiry) measured without the private validators")
 
 
 # ------------------------------------------------------------------------------------ (T)
@@ -322,6 +341,7 @@ def spec() -> Spec:
         generate=generate,
         extract=extract,
         nontrivial=nontrivial,
+        post=post,
         signature=signature,
         budget={"quick": 550, "thorough": 7000},
         search_budget={"quick": 2500, "thorough": 20000},
@@ -330,6 +350,7 @@ def spec() -> Spec:
              "invalidity kind separately and in pairs; advances aimed at min-interval, window, 120 s and 180 s edges (-1 ns, 0, +1 ns); "
              "distinct = sha256 of the op list; non-trivial = at least one announce changed state and one was refused",
         trusted_base=["virtual clock by link-time interposition of steady_clock/system_clock::now",
+                      "validity facts measured with Node.cpp's private validators when they exist (VERIF_INTERNALS=1), otherwise through an oracle Node / the property's own statement (noted in the evidence)",
                       "harness construction of payloads from flag letters (the facts are re-measured with the real validators and compared with the model's)",
                       "std::deque / std::unordered_map behaviour"],
         assumptions=["PoW difficulty <= 4 in generated histories (the solver is the real one); difficulty clamping is covered by cfg-only cases",
